@@ -426,6 +426,18 @@ Proof.
     destruct (find_base bases (rev (firstn a seq)) 1) as [[anchors d]|]; [|discriminate].
     destruct (nth_error anchors cls) as [[[bx byy]|]|]; inversion H; subst.
     simpl. split; [lia|reflexivity].
+  - (* mark to mark *)
+    destruct (assoc (gid g0) marks1) as [[cls [mx my]]|]; [|discriminate].
+    destruct (negb (mm_same (next_kept kp (rev (firstn a seq)) 0) (find_base marks2 (rev (firstn a seq)) 1))).
+    + inversion H; subst. simpl. split; [lia|reflexivity].
+    + destruct (next_kept kp (rev (firstn a seq)) 0) as [[[g2 l2] d]|]; [|discriminate].
+      destruct (assoc (gid g2) marks2) as [anchors|]; [|discriminate].
+      destruct (nth_error anchors cls) as [[[bx byy]|]|]; inversion H; subst.
+      simpl. split; [lia|reflexivity].
+  - (* reverse chaining *)
+    destruct (assoc (gid g0) m) as [h|]; [|discriminate].
+    destruct (match_ctx kp (map PCov back) (rev (firstn a seq)) && match_ctx kp (map PCov look) (skipn (S a) seq));
+      inversion H; subst. simpl. split; [lia|reflexivity].
 Qed.
 
 (* ------------------------------------------------------ skipped glyphs *)
@@ -921,8 +933,8 @@ Qed.
 Lemma apply_lookup_fst_indep : forall ll gd budget li seq ok1 ok2,
   fst (apply_lookup ll gd budget (seq, ok1) li) = fst (apply_lookup ll gd budget (seq, ok2) li).
 Proof.
-  intros. unfold apply_lookup. destruct (nth_error ll li); [|reflexivity].
-  cbn [fst snd]. apply scan_fst_indep.
+  intros. unfold apply_lookup. destruct (nth_error ll li) as [lk|]; [|reflexivity].
+  cbn [fst snd]. destruct (is_reverse lk); [reflexivity | apply scan_fst_indep].
 Qed.
 
 Lemma fold_lookup_fst_indep : forall ll gd budget order seq ok1 ok2,
